@@ -11,8 +11,9 @@ terminal model (`vf.vt.Screen`).  After each redraw the very same canvas object 
 scratch by a fresh screen into a fresh model; the per-cell graphics maps and the text cells of
 the two models must be equal (no ghost, nothing missing).  Further per-redraw obligations: no
 exception escapes `draw_screen`; the output is exactly one `CSI ? 2026 h ... CSI ? 2026 l`
-bracket with no screen-changing byte outside it; the model's parser is back in ground state.
-After `start()`, `stop()`, `clear()` the model holds no graphics placement at all (foreign
+bracket with no screen-changing byte outside it; the model's parser is back in ground state
+and saw no cut / malformed control sequence (an image line whose terminator is split by urwid's
+bottom-row insertion is an image that is not on the terminal).  After `start()`, `stop()`, `clear()` the model holds no graphics placement at all (foreign
 images left by "another program" are seeded into the model before `start()`).  At every step
 all live kitty widgets hold pairwise distinct z-indexes in [-(2**31 - 1), 2**31 - 1].
 
@@ -22,6 +23,16 @@ then the screen takes the same code path as on kitty and the full property is de
 forced support off (flag `force: false`, wezterm / unknown terminal) kitty specs degrade to
 iterm2 widgets, nothing is tracked by the screen, and the text/graphics equality still has to
 hold because iterm2 images outside konsole are ordinary cell content.
+
+Violation signatures carry a diagnosis (never used by the oracle): `same_canvas` (the redraw got
+the previous canvas object), `explicit_clear` (the history called clear_images()), `prev_composite`,
+`disguise_unchanged` / `disguise_bumped` (a widget's placements were deleted since the last
+completed redraw while its hidden per-line "disguise" text ended up identical, and whether the
+library did call the disguise-changing methods in between; the calls are counted by thin wrappers).
+
+Out of domain (skipped, counted as `render_errors` / `degenerate_views`): layouts that urwid or the
+image widget cannot render at the given size, and composite canvases containing zero-width or
+zero-height views (`UrwidImageCanvas.content()` treats `cols=0` as "no trim", a canvas matter).
 """
 
 from __future__ import annotations
@@ -49,7 +60,8 @@ META = {
         "a wrong size (ValueError expected, bracket must still close); identities kitty 0.26.5, kitty 0.20.0, konsole "
         "22.04.0, wezterm and unknown (forced support on/off). Oracle: long-lived screen+terminal model vs. fresh "
         "screen+fresh model drawing the same canvas object: graphics_map() and text cells equal; sync bracket exact; "
-        "no exception; no placement after start/stop/clear; live z-indexes distinct and in range; the allocator is "
+        "no exception; no cut/malformed control sequence; no placement after start/stop/clear (start()/stop() of an "
+        "already started/stopped screen write nothing); live z-indexes distinct and in range; the allocator is "
         "checked against a model of its documented sequence incl. exhaustion. Non-trivial = history with a redraw in "
         "which one graphics placement set changed (moved/resized/vanished) while another stayed; distinct by (op-kind "
         "sequence, style mix, identity)."
@@ -66,6 +78,12 @@ META = {
         "so the full property is demanded there",
         "a fresh screen's start()/stop() bumps the class-wide canvas disguise counter; the harness restores the "
         "counter so that the reference drawing does not perturb the screen under test",
+        "the top widget persists between redraws while the layout is unedited (as with urwid.MainLoop), so an unchanged "
+        "redraw hands the cached canvas object to draw_screen(); container widgets are rebuilt after every edit",
+        "clear_images(*widgets) is called with distinct widgets; ListBox scrolling is done with set_focus() + "
+        "set_focus_valign(); layouts with zero-width/zero-height canvas views are out of domain",
+        "any control sequence the terminal model reports as cut/garbled/unknown inside a redraw counts as a defect of "
+        "the output (every sequence urwid's raw display emits is known to the model)",
     ],
 }
 
@@ -76,7 +94,7 @@ BEGIN, END = "\x1b[?2026h", "\x1b[?2026l"
 IDENTS = [["kitty", "0.26.5"], ["kitty", "0.20.0"], ["konsole", "22.04.0"],
           ["wezterm", "20230712-072601-f4abf8fd"], ["", ""]]
 PALETTE = [("hl", "light red", "dark blue"), ("hl2", "black", "light gray")]
-_PRIOR = []  # weakrefs of kitty widgets of earlier cases (must all be dead at case start)
+_PRIOR = []  # weakrefs of kitty widgets of earlier cases (retired at the start of the next case)
 
 
 def setup():
@@ -483,7 +501,6 @@ class Lab:
         self.prev_keys = None
         self.flags = set()
         self.redraws = 0
-        self.unknown = set()
         self.last_canvas = None
         self.diag = {}
         self.dis_mark = self.gl_mark = None
@@ -657,6 +674,11 @@ class Lab:
                 raise ValueError("canvas size")
             for _ in canvas.content():  # urwid canvases that cannot produce their content (zero-width text, ...)
                 pass
+            for _, cviews in getattr(canvas, "shards", ()):
+                for cv in cviews:
+                    if cv[2] <= 0 or cv[3] <= 0:  # zero-width / zero-height view (e.g. an overlay 25% of 1 column wide)
+                        self.rec.count("degenerate_views")
+                        raise ValueError("degenerate view")
             return canvas
         except Exception as e:  # layouts urwid / the image widget cannot render at this size: not C18's business
             self.rec.count("render_errors")
@@ -732,9 +754,6 @@ class Lab:
                      "prev_composite": prev_composite, "disguise_unchanged": bool(stuck),
                      "disguise_bumped": any(BUMPS.get("canvas", 0) + BUMPS.get(k, 0) > 0 for k in stuck)}
         BUMPS.clear()
-        for e in vt.events[n_ev:]:
-            if e[0] in ("unknown_csi", "unknown_mode", "unknown_esc", "unknown_string"):
-                self.unknown.add(e)
         # (1) stream complete and well-formed
         if not vt.in_ground():
             self.fail(f"redraw leaves the terminal parser in state {vt.parser_state()}", {"kind": "parser", "after": "redraw"})
@@ -879,7 +898,8 @@ def run_history(case, rec):
         rec.label(f"ident:{ident}", "forced" if case["force"] else "unforced", *sorted(lab.flags),
                   *(f"style:{s}" for s in styles))
         rec.count("redraws", lab.redraws)
-        for e in sorted(lab.unknown):
+        # control sequences the terminal model did not know, over the whole output incl. start()/stop()
+        for e in sorted({e for e in lab.vt.events if e[0] in ("unknown_csi", "unknown_mode", "unknown_esc", "unknown_string")}):
             rec.label(f"model-unknown:{e[0]}:{e[1]}")
         if "changed_while_stayed" in lab.flags:
             rec.nontriv([lab.kinds, styles, case["ident"], case["force"]])
